@@ -12,6 +12,24 @@ CHECKS = {
    note="trusted: pv/canon.py, numerical thresholds (1e-4*scale Clarabel / 5e-3*scale SCS), solver status 'optimal'; "
         "MOSEK side observed through a stand-in module",
    tech="runtime monitor at the wrapper boundary + independent certificate re-assembly oracle"),
+ "C02": dict(cat="exploration", ref="DESIGN 3/C02",
+   text="After every finite optimal solve of a generated model, all leaves, all objects held by the program and objects built "
+        "after the solve are evaluated through the real accessors and compared with an independent evaluator; Gram "
+        "reproduction, feasibility of every sent constraint/LMI, objective = min metric, primal <= dual. Sampling.",
+   note="trusted: pv/canon.py, thresholds of DESIGN 2.8, solver status 'optimal'",
+   tech="runtime monitor at the wrapper boundary + independent evaluator oracle over accessor results"),
+ "C06": dict(cat="exploration", ref="DESIGN 3/C06",
+   text="Contracts wrapped around the real dunder methods of Point/Expression check every operator application driven by random "
+        "expression trees and by model construction: denotation under random leaf assignment, operands unchanged, fresh result, "
+        "comparison sense; 43 bad-operand kinds must raise. 2e5 applications per quick run.",
+   note="trusted: pv/canon.py; identity testing at random points in R^5 at 1e-9 relative",
+   tech="runtime contracts (pre/post snapshots) on the real operator methods + reference interpreter"),
+ "C16": dict(cat="exploration", ref="DESIGN 3/C16",
+   text="Every object reachable in generated models is asked for eval()/eval_dual() before any solve and after a solve that "
+        "returned None (must raise ValueError exactly); purpose-built unbounded/infeasible models must return None when the "
+        "back-end says so (Clarabel and SCS); invalid option values must raise.",
+   note="objects without any leaf are outside the statement; SolverError is inconclusive for that case",
+   tech="runtime monitor of accessor outcomes (exception type / returned value) over generated and fault models"),
 }
 NOT_YET = {}
 
